@@ -542,6 +542,23 @@ Open Scope string_scope.
 """
 
 
+def registry_consts(mods, t):
+    enum_vals = {}
+    for m in mods:
+        for c in m.classes:
+            if "Enum" in base_names(c):
+                for s0 in c.body:
+                    if isinstance(s0, ast.Assign) and isinstance(s0.value, ast.Constant):
+                        enum_vals[(c.name, s0.targets[0].id)] = s0.value.value
+    reg = []
+    for mode, base, cls in t["registry"]:
+        if ("Mode", mode) not in enum_vals or ("BaseType", base) not in enum_vals:
+            raise ExtractError("scalar_types.py", 0, f"registry refers to unknown enum member {mode}/{base}")
+        reg.append(f"(VTuple [VEnum \"Mode\" {cstr(mode)} {cz(enum_vals[('Mode', mode)])}; "
+                   f"VEnum \"BaseType\" {cstr(base)} {cz(enum_vals[('BaseType', base)])}], VClass {cstr(cls)})")
+    return reg
+
+
 def gen_scalar(repo, outdir, notes):
     mods = [Module(repo, "nada_dsl/nada_types/__init__.py"),
             Module(repo, "nada_dsl/operations.py"),
@@ -555,12 +572,7 @@ def gen_scalar(repo, outdir, notes):
                 for s in c.body:
                     if isinstance(s, ast.Assign) and isinstance(s.value, ast.Constant):
                         enum_vals[(c.name, s.targets[0].id)] = s.value.value
-    reg = []
-    for mode, base, cls in t["registry"]:
-        if ("Mode", mode) not in enum_vals or ("BaseType", base) not in enum_vals:
-            raise ExtractError("scalar_types.py", 0, f"registry refers to unknown enum member {mode}/{base}")
-        reg.append(f"(VTuple [VEnum \"Mode\" {cstr(mode)} {cz(enum_vals[('Mode', mode)])}; "
-                   f"VEnum \"BaseType\" {cstr(base)} {cz(enum_vals[('BaseType', base)])}], VClass {cstr(cls)})")
+    reg = registry_consts(mods, t)
     text = HEADER.format(src="nada_types/__init__.py, operations.py, program_io.py, nada_types/scalar_types.py")
     text += "Definition funs : list (string * fundef) :=\n  " + clist(["\n   " + f for f in t["funs"]]) + ".\n\n"
     text += "Definition classes : list classdef :=\n  " + clist(["\n   " + c for c in t["classes"]]) + ".\n\n"
@@ -752,6 +764,27 @@ def gen_frontend_tables(repo, outdir, notes):
     write_if_changed(os.path.join(outdir, "GenFrontend.v"), text)
 
 
+def gen_classes_all(repo, outdir, notes):
+    """Class table of every Nada value class (scalars and collections): MRO, defined methods,
+    dataclass-generated __eq__.  Used by C07 (obliviousness)."""
+    mods = [Module(repo, "nada_dsl/nada_types/__init__.py"),
+            Module(repo, "nada_dsl/operations.py"),
+            Module(repo, "nada_dsl/program_io.py"),
+            Module(repo, "nada_dsl/nada_types/scalar_types.py"),
+            Module(repo, "nada_dsl/nada_types/collections.py")]
+    local_notes = []
+    t = emit_class_table(mods, skip_funcs=("register_scalar_type",), notes=local_notes)
+    text = HEADER.format(src="nada_types/__init__.py, scalar_types.py, collections.py (class table)")
+    text += "Definition classes : list classdef :=\n  " + clist(["\n   " + c for c in t["classes"]]) + ".\n\n"
+    text += "Definition enums : list (string * list (string * Z)) :=\n  " + clist(t["enums"]) + ".\n\n"
+    text += "Definition enum_methods : list (string * list (string * fundef)) :=\n  " + clist(t["enum_methods"]) + ".\n\n"
+    text += "Definition funs : list (string * fundef) :=\n  " + clist(["\n   " + f for f in t["funs"]]) + ".\n\n"
+    text += "Definition consts : list (string * value) :=\n  [(\"SCALAR_TYPES\", VDict " + clist(registry_consts(mods, t)) + ")].\n\n"
+    text += ("Definition G : genv := {| g_funs := funs; g_classes := classes; g_enums := enums;\n"
+             "  g_enum_methods := enum_methods; g_consts := consts |}.\n")
+    write_if_changed(os.path.join(outdir, "GenClasses.v"), text)
+
+
 def main():
     repo, outdir = sys.argv[1], sys.argv[2]
     os.makedirs(outdir, exist_ok=True)
@@ -760,6 +793,7 @@ def main():
         gen_scalar(repo, outdir, notes)
         gen_ast_tables(repo, outdir, notes)
         gen_frontend_tables(repo, outdir, notes)
+        gen_classes_all(repo, outdir, notes)
     except (ExtractError, KeyError, StopIteration, AttributeError) as e:
         print(f"EXTRACT-ERROR {e}")
         sys.exit(2)
